@@ -31,7 +31,8 @@ type Array []Value
 type Tuple []Value
 
 type Slice struct {
-	S []Value // len(S)=len, cap(S)=cap
+	S      []Value // len(S)=len, cap(S)=cap
+	SymLen *Term   // non-nil: content-less slice of symbolic length (only len/cap are defined)
 }
 
 type Str struct {
